@@ -769,6 +769,9 @@ def _env_invariance(chk, group):
         from harness import srcdict as _sd
         if _sd.new_imports():
             environments["optional packages the changed source imports are present (stand-ins): " + ", ".join(_sd.new_imports())[:80]] = {"VERIF_MASQUERADE": "phantom-modules"}
+        for gm in _sd.new_guarded_imports():
+            # a dependency whose import the changed source now guards with try / except: on a host where that import fails the library may do less, never accept more
+            environments[f"degraded: importing {gm} fails inside the library (the changed source guards that import)"] = {"VERIF_MASQUERADE": "broken-import:" + gm, "@monotone": "1"}
         if _sd.paths():
             for content in ("1", "0", "true"):
                 environments[f"files the changed source names exist and read '{content}': " + ", ".join(_sd.paths())[:80]] = {"VERIF_MASQUERADE": "files:" + content}
